@@ -110,16 +110,8 @@ func installSites(p *Program) []*installSite {
 // for the given writer variable.
 func findCloseDefer(p *Program, fn *ssa.Function, w Var) *ssa.Defer {
 	var found *ssa.Defer
-	eachInstr(fn, func(i ssa.Instruction) {
-		d, ok := i.(*ssa.Defer)
-		if !ok || found != nil {
-			return
-		}
-		mc, ok := d.Call.Value.(*ssa.MakeClosure)
-		if !ok {
-			return
-		}
-		cl := mc.Fn.(*ssa.Function)
+	// closesWhat: cl closes the compressing writer it finds, on the ok edge of a comma-ok assertion, in a value isW accepts
+	closesWhat := func(cl *ssa.Function, isW func(v ssa.Value) bool) bool {
 		closes := false
 		eachInstr(cl, func(j ssa.Instruction) {
 			cc := callCommon(j)
@@ -136,7 +128,7 @@ func findCloseDefer(p *Program, fn *ssa.Function, w Var) *ssa.Defer {
 			if !ok || !ta.CommaOk {
 				return
 			}
-			if !p.isVar(ta.X, w) {
+			if !isW(ta.X) {
 				return
 			}
 			facts := factsAt(cl)
@@ -146,8 +138,34 @@ func findCloseDefer(p *Program, fn *ssa.Function, w Var) *ssa.Defer {
 				}
 			}
 		})
-		if closes {
-			found = d
+		return closes
+	}
+	eachInstr(fn, func(i ssa.Instruction) {
+		d, ok := i.(*ssa.Defer)
+		if !ok || found != nil {
+			return
+		}
+		if mc, ok := d.Call.Value.(*ssa.MakeClosure); ok {
+			cl := mc.Fn.(*ssa.Function)
+			if closesWhat(cl, func(v ssa.Value) bool { return p.isVar(v, w) }) {
+				found = d
+			}
+			return
+		}
+		// defer helper(&writer): the helper reads the variable when it runs
+		if h := d.Call.StaticCallee(); h != nil && p.inModule(h) && h.Blocks != nil && w.Cell != nil {
+			for k, a := range d.Call.Args {
+				if a != ssa.Value(w.Cell) || k >= len(h.Params) {
+					continue
+				}
+				prm := h.Params[k]
+				if closesWhat(h, func(v ssa.Value) bool {
+					u, ok := strip(v).(*ssa.UnOp)
+					return ok && u.Op == token.MUL && u.X == ssa.Value(prm)
+				}) {
+					found = d
+				}
+			}
 		}
 	})
 	return found
@@ -284,6 +302,32 @@ func c07Wants(c *Ctx, fn *ssa.Function) {
 			rParam = prm
 		}
 	}
+	// isHeaderOrPart: v is the request's Accept-Encoding value, or a piece of it (a part returned by strings.Cut, a
+	// slice): what is found in a piece is in the header
+	var isHeaderOrPart func(v ssa.Value, depth int) bool
+	isHeaderOrPart = func(v ssa.Value, depth int) bool {
+		if owner, hname, ok := headerGet(v); ok && hname == "Accept-Encoding" && owner == ssa.Value(rParam) {
+			return true
+		}
+		if depth > 3 {
+			return false
+		}
+		switch x := strip(singleAssignment(v)).(type) {
+		case *ssa.Extract:
+			if call, ok := x.Tuple.(*ssa.Call); ok && x.Index < 2 {
+				if n := calleeName(&call.Call); n == "strings.Cut" || n == "strings.CutPrefix" || n == "strings.CutSuffix" {
+					return isHeaderOrPart(call.Call.Args[0], depth+1)
+				}
+			}
+		case *ssa.Slice:
+			return isHeaderOrPart(x.X, depth+1)
+		case *ssa.Call:
+			if n := calleeName(&x.Call); n == "strings.TrimSpace" || n == "strings.Trim" || n == "strings.TrimLeft" || n == "strings.TrimRight" || n == "strings.TrimPrefix" || n == "strings.TrimSuffix" {
+				return isHeaderOrPart(x.Call.Args[0], depth+1)
+			}
+		}
+		return false
+	}
 	// indexOf[E] = the strings.Index(header, E) values
 	isIndexOf := func(v ssa.Value, enc string) bool {
 		call, ok := strip(v).(*ssa.Call)
@@ -291,15 +335,14 @@ func c07Wants(c *Ctx, fn *ssa.Function) {
 			return false
 		}
 		n := calleeName(&call.Call)
-		if n != "strings.Index" && n != "strings.Contains" {
+		if n != "strings.Index" && n != "strings.Contains" && n != "strings.LastIndex" {
 			return false
 		}
 		s, ok := constStr(call.Call.Args[1])
 		if !ok || s != enc {
 			return false
 		}
-		owner, hname, ok := headerGet(call.Call.Args[0])
-		return ok && hname == "Accept-Encoding" && owner == ssa.Value(rParam)
+		return isHeaderOrPart(call.Call.Args[0], 0)
 	}
 	// mentioned(v, enc, pol): v==pol means "header mentions enc"
 	var mentions func(v ssa.Value, enc string) (isTest bool, whenTrue bool)
@@ -307,6 +350,14 @@ func c07Wants(c *Ctx, fn *ssa.Function) {
 		v = strip(v)
 		if call, ok := v.(*ssa.Call); ok && calleeName(&call.Call) == "strings.Contains" && isIndexOf(v, enc) {
 			return true, true
+		}
+		// the "found" result of strings.Cut(header, enc)
+		if ex, ok := v.(*ssa.Extract); ok && ex.Index == 2 {
+			if call, ok := ex.Tuple.(*ssa.Call); ok && calleeName(&call.Call) == "strings.Cut" {
+				if sep, ok := constStr(call.Call.Args[1]); ok && sep == enc && isHeaderOrPart(call.Call.Args[0], 0) {
+					return true, true
+				}
+			}
 		}
 		b, ok := v.(*ssa.BinOp)
 		if !ok {
